@@ -1,5 +1,5 @@
 """C08 — program-level three-way comparison (Go interpreter, Lean model evaluator, Lean spec semantics)."""
-from props import progs, sites
+from props import progs, sites, callcopy
 from props.progs import replay  # noqa
 
 GEN = 'call'
@@ -17,7 +17,14 @@ RULE = ("programs with 1–4 methods of arity 0–3 (bodies display their name a
         "absent; 2–3 instances created first and more in between; properties changed IN PLACE without having been assigned on that "
         "object (自增 / 自减 / 转换数值 through 其, through 对象之属性, through a chain, through a linked object, on items of the default "
         "containers) and by plain assignment; after every step every property of every instance, of a fresh instance of every type "
-        "and the program inputs are displayed. Non-trivial there = at least one in-place change and two instances.")
+        "and the program inputs are displayed. Non-trivial there = at least one in-place change and two instances. Stream `new-edge` "
+        "(props/edges.py, 150 programs of 2–4 probes, each in a method with its own handler or bare): 新建 of a name that holds a text / list / "
+        "dictionary / method / object / 空 / nothing; 新建 with arguments for a type without constructor and for 异常; 如何新建 of a name "
+        "that is no type, of 异常, of a type defined further down, twice for one type, with the wrong number of arguments at 新建, and "
+        "through a parameter that holds a type of the program / the predefined 异常. "
+        "Stream `callcopy`: 其属性 / 对象之属性 / names / elements assigned the result of a call that yields another object's property "
+        "(getter, chain ending in a getter), its own argument or a part of it, then both holders changed in place at nesting "
+        "level 0–2 (自增 自减 后增 前增 # 写入 移除), all properties displayed after every step.")
 ASSUMPTIONS = ["unbounded recursion (Go stack exhaustion) is outside the quantifier"]
 PARTIAL = "computed properties (何为) are compiled but never consulted by the evaluator; not generated"
 
@@ -32,3 +39,17 @@ def run(ctx):
     m = ctx.n(400, 12000)
     qs = [g.inst_program() for _ in range(m)]
     progs.run_stream(ctx, 'inst', qs, nontrivial=lambda src, go: src.count('令件') >= 2 and ('（自增' in src or '（增：' in src or '（减：' in src))
+    # 新建 / 如何新建 of names that are no (program) types, constructors before their type / twice / through a parameter — props/edges.py
+    from props import edges
+    st = {}
+    ns = edges.new_programs(ctx.rng, ctx.n(150, 6000), st)
+    progs.run_stream(ctx, 'new-edge', ns, nontrivial=lambda src, go: True)
+    for k, v in sorted(st.items()):
+        ctx.count('new-edge:gen:' + k, v)
+    # properties (and names, elements) assigned the result of a call that yields another object's property / its argument, then one
+    # of the two holders changed in place (props/callcopy.py)
+    rs = callcopy.programs(g, ctx.n(250, 7500))
+    for k, v in sorted(g.stats.items()):
+        if k.startswith('callcopy:'):
+            ctx.count('gen-' + k, v)
+    progs.run_stream(ctx, 'callcopy', rs, nontrivial=callcopy.nontrivial)
